@@ -327,15 +327,18 @@ func (f *frame) chanSend(i *ssa.Send, n *node, st *State) *State {
 			fld = fld[j+1:]
 		}
 		if fld != "" {
-			f.callSeq["send "+fld]++
-			site := fmt.Sprintf("send %s#%d", fld, f.callSeq["send "+fld])
+			site := fmt.Sprintf("send %s#%d", fld, f.siteOrd("send "+fld, i.Pos()))
 			if as := f.c.CallAsserts[site]; len(as) > 0 {
 				f.x.hitSites[site] = true
 				for _, a := range as {
 					sc := f.x.newSpecCtx(f, n, st, f.x.entryState)
 					sc.anchor = i.Pos()
 					sc.vars["v"] = v
-					f.x.oblige("assert@"+site, a.Tags, st.pc, sc.evalBool(a.Expr), i.Pos(), a.Text)
+					g := sc.evalBool(a.Expr)
+					o := f.x.oblige("assert@"+site, a.Tags, st.pc, g, i.Pos(), a.Text)
+					o.Reveal = a.Reveal
+					o.By = a.By
+					f.x.assumeLabelled(st.pc, g, "asserted at "+site, a.Label)
 				}
 			}
 		}
@@ -398,14 +401,17 @@ func (f *frame) chanRecv(i *ssa.UnOp, ch Value, n *node, st *State) *State {
 			fld = fld[j+1:]
 		}
 		if fld != "" {
-			f.callSeq["recv "+fld]++
-			site := fmt.Sprintf("recv %s#%d", fld, f.callSeq["recv "+fld])
+			site := fmt.Sprintf("recv %s#%d", fld, f.siteOrd("recv "+fld, i.Pos()))
 			if as := f.c.CallAsserts[site]; len(as) > 0 {
 				f.x.hitSites[site] = true
 				for _, a := range as {
 					sc := f.x.newSpecCtx(f, n, st, f.x.entryState)
 					sc.anchor = i.Pos()
-					f.x.oblige("assert@"+site, a.Tags, st.pc, sc.evalBool(a.Expr), i.Pos(), a.Text)
+					g := sc.evalBool(a.Expr)
+					o := f.x.oblige("assert@"+site, a.Tags, st.pc, g, i.Pos(), a.Text)
+					o.Reveal = a.Reveal
+					o.By = a.By
+					f.x.assumeLabelled(st.pc, g, "asserted at "+site, a.Label)
 				}
 			}
 		}
